@@ -41,6 +41,7 @@ def gen_spec(rng: random.Random, family: str) -> Spec:
     exotic = family.endswith("x")           # + STOPPED / CANCELED / SKIPPED / REDIRECT-without-target results, failPipeline=False
     family = family.rstrip("x")
     outcomes = ["S"] * 8 + ["T", "F", "R", "E", "X"] + (["P", "C", "K", "D"] if exotic else [])
+    jumpers = 0
     if family in ("w3", "any"):
         outcomes += ["J", "J"]
     if family in ("w4", "any"):
@@ -54,7 +55,10 @@ def gen_spec(rng: random.Random, family: str) -> Spec:
         tasks = []
         for _ in range(nt):
             o = rng.choice(outcomes)
+            if o == "J" and jumpers >= 1 and not exotic:
+                o = "S"          # main family: one jumping task per workflow (one loop); several concurrent jumpers are 'exotic'
             if o == "J":
+                jumpers += 1
                 script = [f"J{rng.randrange(n)}"] * rng.randint(1, 3) + ["S"]
             elif o in "STFPCKDX":
                 script = [o]
@@ -86,6 +90,7 @@ class Trace:
     outcomes: list[str] = field(default_factory=list)
     tag: str = ""
     respecting: bool = True   # no delayed message was delivered while an immediate one was pending
+    meta: dict = field(default_factory=dict)   # reference outcome etc. for differential monitors
 
     def request(self) -> str:
         return f"engine {self.spec.line()} {','.join(self.ops) or '-'}"
@@ -155,7 +160,12 @@ class Runner:
             return p
         dl = self.e.delayed_ids()
         now = [x for x in p if x[0] not in dl]
-        return now or p
+        if now:
+            return now
+        # among delayed messages, task polls / transient retries (backoff ~1-60 s) come before wait re-polls
+        # (15 s x 240): a wait budget is only consumed when nothing else can make progress
+        polls = [x for x in p if x[1].startswith("RT.")]
+        return polls or p
 
     def apply(self, op: tuple) -> None:
         e, t = self.e, self.t
@@ -203,7 +213,7 @@ class Runner:
 
     def drain(self, rng: random.Random | None, mode: str = "fifo", max_steps: int = 250, redeliver_p: float = 0.0) -> None:
         for _ in range(max_steps):
-            p = self.pending()
+            p = self.eligible(True)
             if not p:
                 break
             rid = p[0][0] if mode == "fifo" or rng is None else rng.choice(p)[0]
@@ -323,6 +333,48 @@ def waiting_explicitly(fin: dict) -> bool:
     return any(s["status"] in ("SUSPENDED", "PAUSED") for s in fin["stages"])
 
 
+def exhausted(t: Trace) -> int | None:
+    """index k (into lines) of the first delivery of a wait re-poll whose budget is spent (retry == WAIT_MAX)"""
+    for k, m in enumerate(t.op_msg):
+        if m and ((m.startswith("CW.") and m.split(".")[1] == str(WAIT_MAX)) or
+                  (m.startswith("SS.") and m.split(".")[2] == str(WAIT_MAX))):
+            return k
+    return None
+
+
+def wedge_cause(t: Trace, fin: dict) -> str:
+    """Name the cause of a quiescent-but-unfinished workflow (stable signature per defect, not per shape)."""
+    has_d = any("D" in script for st in t.spec.stages for script in st.tasks)
+    for s in fin["stages"]:
+        if s["status"] == "RUNNING" and "REDIRECT" in s["tasks"]:
+            # task REDIRECT and nobody drives the stage: either the task returned REDIRECT without a target,
+            # or a stale CompleteTask(REDIRECT) of the previous loop iteration hit the re-armed task (F4)
+            return "redirect-result-without-jump" if has_d else "stale-completetask-redirect-after-rearm"
+    fwd_src = set()
+    for k, m in enumerate(t.op_msg):
+        if m and m.startswith("JS."):
+            a, b = int(m.split(".")[1]), int(m.split(".")[2])
+            fwd_src.add(a)
+    for i, s in enumerate(fin["stages"]):
+        reqs = t.spec.stages[i].reqs
+        ups = [fin["stages"][u]["status"] for u in reqs]
+        if s["status"] == "NOT_STARTED" and reqs and all(u in CONTINUABLE for u in ups) and any(u in fwd_src for u in reqs):
+            rearm = any(ent == f"S{i}" and new == "NOT_STARTED" for ent, old, new in t.audit)
+            if not rearm:
+                return "downstream-of-jump-source-never-triggered"   # jump completed its source without start_next
+    rearmed = {int(ent[1:]) for ent, old, new in t.audit if ent[0] == "S" and new == "NOT_STARTED"}
+    jumped = any(m and m.startswith("JS.") for m in t.op_msg)
+    for i, s in enumerate(fin["stages"]):
+        ups = [fin["stages"][u]["status"] for u in t.spec.stages[i].reqs]
+        if s["status"] == "NOT_STARTED" and i in rearmed and all(u in COMPLETE for u in ups):
+            return "rearmed-stage-not-retriggered"       # jump re-armed it, but its upstreams were not re-run
+    for i, s in enumerate(fin["stages"]):
+        if s["status"] == "RUNNING" and s["tasks"] and jumped and all(x in ("NOT_STARTED",) or x in COMPLETE for x in s["tasks"]):
+            return "stale-message-after-jump"
+    shape = "+".join(sorted({s["status"] for s in fin["stages"]}))
+    return ("jump:" if jumped else "") + shape
+
+
 def mon_c05(t: Trace) -> list[tuple[str, str]]:
     hits = []
     if not t.quiesced:
@@ -330,11 +382,20 @@ def mon_c05(t: Trace) -> list[tuple[str, str]]:
     fin = t.final()
     sts = [s["status"] for s in fin["stages"]]
     if fin["wf"] not in COMPLETE and not waiting_explicitly(fin):
-        shape = "+".join(sorted(set(sts)))
-        hits.append((f"wedged:{fin['wf']}:{shape}", f"queue empty, workflow {fin['wf']}, stages {sts}: neither final nor explicitly waiting"))
+        hits.append((f"wedged:{wedge_cause(t, fin)}", f"queue empty, workflow {fin['wf']}, stages {sts}: neither final nor explicitly waiting"))
+    ex = exhausted(t)
+    if ex is not None and t.respecting:
+        pre = parse_line(t.lines[ex])
+        if pre["wf"] not in COMPLETE and waiting_explicitly(pre):
+            hits.append(("waiting-workflow-failed-by-wait-budget",
+                         f"a stage was explicitly waiting (SUSPENDED/PAUSED) but {t.op_msg[ex]} exhausted its re-poll budget and failed the workflow"))
+        if pre["wf"] not in COMPLETE and not waiting_explicitly(pre):
+            hits.append((f"stuck-until-wait-budget:{wedge_cause(t, pre)}",
+                         f"only wait re-polls were pending ({t.op_msg[ex]} exhausted its budget): workflow {pre['wf']} was silently stuck with stages {[x['status'] for x in pre['stages']]}"))
     if fin["wf"] == "SUCCEEDED" and not all(s in CONTINUABLE for s in sts):
-        bad = "+".join(sorted({s for s in sts if s not in CONTINUABLE}))
-        hits.append((f"succeeded-with:{bad}", f"workflow SUCCEEDED with stages {sts}"))
+        bad = {s for s in sts if s not in CONTINUABLE}
+        cause = "stopped-stage" if "STOPPED" in bad else "+".join(sorted(bad))
+        hits.append((f"succeeded-with:{cause}", f"workflow SUCCEEDED with stages {sts}"))
     if "TERMINAL" in sts and fin["wf"] in COMPLETE and fin["wf"] not in ("TERMINAL", "CANCELED"):
         hits.append((f"terminal-stage-but:{fin['wf']}", f"a stage is TERMINAL but the workflow is {fin['wf']}"))
     if fin["wf"] in COMPLETE and "RUNNING" in sts:
@@ -398,8 +459,113 @@ def mon_c17(t: Trace) -> list[tuple[str, str]]:
     return hits
 
 
+def outcome_of(t: Trace) -> dict:
+    fin = t.final()
+    last_seen: dict[str, list] = {}
+    execs: Counter = Counter()
+    for s_, tt, n, seen in t.ledger:
+        last_seen[f"{s_}.{tt}"] = [list(kv) for kv in seen]
+        execs[f"{s_}.{tt}"] += 1
+    return {"wf": fin["wf"], "stages": [s_["status"] for s_ in fin["stages"]], "tasks": [s_["tasks"] for s_ in fin["stages"]],
+            "seen": last_seen, "execs": dict(execs), "quiesced": t.quiesced, "exhausted": exhausted(t) is not None,
+            "healthy": t.quiesced and fin["wf"] in COMPLETE and exhausted(t) is None}
+
+
+def mon_c01(t: Trace) -> list[tuple[str, str]]:
+    """crash anywhere + restart + sweep + drain == uninterrupted run (statuses, data each task saw, at most the in-flight step repeated)"""
+    ref = t.meta.get("ref")
+    if not ref or not ref.get("healthy"):
+        return []      # the uninterrupted run itself is stuck / exhausted a wait budget: reported by C05, not comparable
+    hits = []
+    got = outcome_of(t)
+    at = t.meta.get("crash_msg", "?").split(".")[0]
+    k = t.meta.get("crash_k")
+    if not got["quiesced"]:
+        hits.append((f"not-drained-after-recovery:{at}", "queue not drained after crash recovery"))
+        return hits
+    fin = t.final()
+    if fin["wf"] not in COMPLETE and not waiting_explicitly(fin) and ref["wf"] in COMPLETE:
+        hits.append((f"stuck-after-crash:{at}@{k}", f"after a crash in {t.meta.get('crash_msg')} (after {k} commits) + restart + sweep + drain the workflow stays {fin['wf']} with stages {got['stages']}; uninterrupted run: {ref['wf']}"))
+        return hits
+    if got["wf"] != ref["wf"] or got["stages"] != ref["stages"]:
+        hits.append((f"outcome-differs:{at}@{k}", f"crash in {t.meta.get('crash_msg')} after {k} commits: final {got['wf']} {got['stages']} vs uninterrupted {ref['wf']} {ref['stages']}"))
+    for key, seen in ref["seen"].items():
+        if key in got["seen"] and got["seen"][key] != seen:
+            hits.append((f"upstream-data-differs:{at}@{k}", f"task {key} saw {got['seen'][key]} after the crash in {t.meta.get('crash_msg')}, {seen} in the uninterrupted run"))
+            break
+    extra = sum(got["execs"].values()) - sum(ref["execs"].values())
+    if extra > t.meta.get("crashes", 1):
+        hits.append((f"more-than-inflight-step-repeated:{at}@{k}", f"{extra} extra task executions after {t.meta.get('crashes', 1)} crash(es)"))
+    return hits
+
+
+def mon_c10(t: Trace) -> list[tuple[str, str]]:
+    """sweeps injected into a healthy run change no outcome and cause no extra execution; after a crash w,w == w"""
+    ref = t.meta.get("ref")
+    if not ref or not ref.get("healthy"):
+        return []      # 'healthy run' = the reference completes without exhausting a wait budget
+    hits = []
+    got = outcome_of(t)
+    kind = t.meta.get("kind", "healthy")
+    where = (t.meta.get("sweep_before") or "?").split(".")[0]
+    if got["quiesced"] != ref["quiesced"] or got["wf"] != ref["wf"] or got["stages"] != ref["stages"]:
+        hits.append((f"{kind}:outcome-changed-by-sweep:before-{where}", f"{kind}: sweep before {t.meta.get('sweep_before')}: final {got['wf']} {got['stages']} vs reference {ref['wf']} {ref['stages']}"))
+    if got["execs"] != ref["execs"]:
+        hits.append((f"{kind}:extra-execution-by-sweep:before-{where}", f"{kind}: sweep before {t.meta.get('sweep_before')}: executions {got['execs']} vs reference {ref['execs']}"))
+    return hits
+
+
+def mon_c18(t: Trace) -> list[tuple[str, str]]:
+    """signals: a SUSPENDED stage leaves SUSPENDED only by a signal or a cancel; every effective signal resumes the
+    stage exactly once (persistent: whenever sent; transient: only if the stage is SUSPENDED when it is handled)"""
+    hits = []
+    tgt = t.meta.get("signal_stage")
+    if tgt is None:
+        return hits
+    for k, op, msg, (ent, old, new) in audit_by_op(t):
+        if ent == f"S{tgt}" and old == "SUSPENDED":
+            cause = (msg or op).split(".")[0]
+            if cause not in ("SG", "XS"):
+                hits.append((f"suspended-left-by:{cause}", f"stage {tgt} left SUSPENDED ({new}) by {msg or op}, not by a signal or cancel"))
+    if not t.quiesced:
+        return hits
+    # effective signals, judged on the implementation trace itself
+    effective = 0
+    handled: set[str] = set()
+    for k in range(1, len(t.lines)):
+        m = t.op_msg[k - 1]
+        rid = t.ops[k - 1][1:]
+        if m and m.startswith(f"SG.{tgt}.") and t.ops[k - 1][0] in "dx" and rid not in handled:
+            handled.add(rid)      # the first delivery runs the handler (its commit carries the mark); later ones are duplicates
+            pre = parse_line(t.lines[k - 1])
+            persistent = m.endswith(".1")
+            if persistent or pre["stages"][tgt]["status"] == "SUSPENDED":
+                effective += 1
+    suspends = t.meta.get("suspends", 0)
+    fin = t.final()
+    st = fin["stages"][tgt]
+    for k in range(1, len(t.lines)):
+        a, b = parse_line(t.lines[k - 1]), parse_line(t.lines[k])
+        if a["wf"] not in COMPLETE and b["wf"] in COMPLETE and b["stages"][tgt]["status"] == "SUSPENDED" and not b["canceled"]:
+            hits.append(("suspended-stage-abandoned:workflow-finished-while-waiting",
+                         f"workflow became {b['wf']} by {t.op_msg[k - 1]} while stage {tgt} was SUSPENDED waiting for a signal"))
+            return hits
+    execs = sum(1 for s_, tt, n, _ in t.ledger if s_ == tgt and tt == t.meta.get("signal_task", 0))
+    if st["status"] in ("NOT_STARTED",):
+        return hits
+    if effective >= suspends:
+        if st["status"] == "SUSPENDED":
+            hits.append((f"signal-lost:{effective}of{suspends}", f"{effective} effective signal(s) for {suspends} suspension(s) but stage {tgt} is still SUSPENDED at quiescence"))
+    else:
+        if st["status"] != "SUSPENDED" and fin["wf"] != "CANCELED" and not fin["canceled"]:
+            hits.append((f"resumed-without-signal:{effective}of{suspends}", f"only {effective} effective signal(s) for {suspends} suspension(s) but stage {tgt} ended {st['status']}"))
+        elif st["status"] == "SUSPENDED" and execs != effective + 1:
+            hits.append((f"resume-count:{execs - 1}-resumes-for-{effective}-signals", f"stage {tgt}: {execs} executions of the suspending task for {effective} effective signals"))
+    return hits
+
+
 # monitors about final outcomes only make sense on budget-respecting schedules (see Runner.eligible)
-OUTCOME_MONITORS = {"mon_c17", "mon_c05"}
+OUTCOME_MONITORS = {"mon_c17", "mon_c05", "mon_c01", "mon_c10", "mon_c18"}
 
 MONITORS = {
     "C02": [mon_c02_reexec],
@@ -407,6 +573,9 @@ MONITORS = {
     "C05": [mon_c05],
     "C06": [mon_c06],
     "C17": [mon_c17],
+    "C01": [mon_c01, mon_c06, mon_c05],
+    "C10": [mon_c10, mon_c06],
+    "C18": [mon_c18, mon_c06],
 }
 
 
@@ -427,7 +596,14 @@ def _one_random(args) -> dict:
     try:
         for j in range(count):
             try:
-                out.append(produce(prop, rng, wd, j))
+                if prop == "C01":
+                    out.extend(produce_c01(rng, wd, tier))
+                elif prop == "C10":
+                    out.extend(produce_c10(rng, wd, tier))
+                elif prop == "C18":
+                    out.extend(produce_c18(rng, wd, tier))
+                else:
+                    out.append(produce(prop, rng, wd, j))
             except Exception:
                 out.append({"error": traceback.format_exc()})
     finally:
@@ -469,10 +645,141 @@ def produce(prop: str, rng: random.Random, wd: Path, j: int) -> dict:
     return pack(t)
 
 
+def fifo_run(spec: Spec, wd: Path, inject: dict[int, list[tuple]] | None = None, limit: int = 250) -> Runner:
+    """budget-respecting FIFO drain with optional ops injected before delivery step j"""
+    r = Runner(spec, wd)
+    step = 0
+    for _ in range(limit):
+        if inject and step in inject:
+            for op in inject[step]:
+                r.apply(op)
+        p = r.eligible(True)
+        if not p:
+            break
+        r.apply(("d", p[0][0]))
+        step += 1
+    return r
+
+
+def produce_c01(rng: random.Random, wd: Path, tier: str) -> list[dict]:
+    spec = gen_spec(rng, rng.choice(["w0", "w1", "w1", "w3"]))
+    ref_r = fifo_run(spec, wd)
+    ref = ref_r.finish()
+    ref_out = outcome_of(ref)
+    out = [pack(ref)]
+    # commits per delivery of the reference run (model: len(txns) + mark + ack)
+    points = []
+    r0 = Runner(spec, wd)
+    j = 0
+    while True:
+        p = r0.eligible(True)
+        if not p or j > 200:
+            break
+        rid, code, _ = p[0]
+        n = r0.e.count_commits(lambda: r0.e.deliver(rid))
+        for k in range(n):
+            points.append((j, rid, code, k))
+        j += 1
+    r0.finish()
+    chosen = points if tier == "thorough" else rng.sample(points, min(len(points), 5))
+    for (j, rid, code, k) in chosen:
+        r = Runner(spec, wd)
+        step = 0
+        while step < j:
+            p = r.eligible(True)
+            r.apply(("d", p[0][0]))
+            step += 1
+        r.apply(("k", rid, k))
+        r.e.expire_locks()
+        r.apply(("w",))
+        if rng.random() < 0.3:
+            r.apply(("w",))
+        r.drain(None, "fifo")
+        t = r.finish()
+        t.tag = "crash"
+        t.meta = {"ref": ref_out, "crash_msg": code, "crash_k": k, "crashes": 1}
+        out.append(pack(t))
+    return out
+
+
+def produce_c10(rng: random.Random, wd: Path, tier: str) -> list[dict]:
+    spec = gen_spec(rng, rng.choice(["w0", "w1", "w1", "w3", "w4"]))
+    ref = fifo_run(spec, wd).finish()
+    ref_out = outcome_of(ref)
+    out = [pack(ref)]
+    steps = len([o for o in ref.ops if o[0] == "d"])
+    js = list(range(steps + 1)) if tier == "thorough" else rng.sample(range(steps + 1), min(steps + 1, 4))
+    for j in js:
+        nsweeps = rng.choice([1, 1, 2])
+        r = fifo_run(spec, wd, inject={j: [("w",)] * nsweeps})
+        t = r.finish()
+        t.tag = "sweep"
+        before = ref.op_msg[j] if j < len(ref.op_msg) else "end"
+        t.meta = {"ref": ref_out, "kind": "healthy", "sweep_before": before or "inj"}
+        out.append(pack(t))
+    return out
+
+
+def is_exotic(spec: Spec) -> bool:
+    """Outside the workload families the properties name: STOPPED / CANCELED / SKIPPED / REDIRECT-without-target task
+    results, failPipeline=False, or several jumping tasks in one workflow."""
+    jumpers = 0
+    for st in spec.stages:
+        if not st.failp:
+            return True
+        for script in st.tasks:
+            if any(o in ("P", "C", "K", "D") for o in script):
+                return True
+            if any(o[0] == "J" for o in script):
+                jumpers += 1
+    return jumpers > 1
+
+
+def produce_c18(rng: random.Random, wd: Path, tier: str) -> list[dict]:
+    """one stage suspends k times (script U^k S); m signals (persistent / transient) are sent at random moments:
+    before the stage started, while it runs, after it suspended; any delivery order, redelivery"""
+    n = rng.randint(1, 4)
+    tgt = rng.randrange(n)
+    stages = []
+    for i in range(n):
+        reqs = sorted(rng.sample(range(i), min(rng.choice([0, 1, 1, 2]), i)))
+        tasks = [["S"]] * rng.choice([1, 1, 2])
+        stages.append(StageSpec(reqs=reqs, tasks=[list(x) for x in tasks]))
+    k = rng.choice([1, 1, 2])
+    ti = rng.randrange(len(stages[tgt].tasks))
+    stages[tgt].tasks[ti] = ["U"] * k + ["S"]
+    spec = Spec(stages)
+    r = Runner(spec, wd)
+    mode = rng.choice(["fifo", "rand", "dup"])
+    nsig = rng.choice([0, 1, 1, 2, 3])
+    sig_at = sorted(rng.randint(0, 30) for _ in range(nsig))
+    step = 0
+    for _ in range(200):
+        while sig_at and sig_at[0] <= step:
+            sig_at.pop(0)
+            r.apply(("g", tgt, rng.random() < 0.7))
+        p = r.eligible(True)
+        if not p:
+            if sig_at:
+                step = sig_at[0]
+                continue
+            break
+        rid = p[0][0] if mode == "fifo" else rng.choice(p)[0]
+        if mode == "dup" and rng.random() < 0.15:
+            r.apply(("x", rid))
+        else:
+            r.apply(("d", rid))
+        step += 1
+    t = r.finish()
+    t.tag = f"signal/{mode}"
+    t.meta = {"signal_stage": tgt, "signal_task": ti, "suspends": k}
+    return [pack(t)]
+
+
 def pack(t: Trace) -> dict:
     return {"spec": t.spec.to_json(), "ops": t.ops, "lines": t.lines, "op_msg": t.op_msg, "audit_len": t.audit_len,
             "ledger_len": t.ledger_len, "audit": t.audit, "ledger": t.ledger, "quiesced": t.quiesced, "tag": t.tag,
-            "outcomes": t.outcomes, "commits": t.commits, "respecting": t.respecting}
+            "outcomes": t.outcomes, "commits": t.commits, "respecting": t.respecting, "meta": t.meta}
 
 
 def unpack(d: dict) -> Trace:
@@ -483,6 +790,7 @@ def unpack(d: dict) -> Trace:
     t.ledger = [(a, b, c, tuple(tuple(kv) for kv in seen)) for a, b, c, seen in d["ledger"]]
     t.quiesced, t.tag, t.outcomes, t.commits = d["quiesced"], d["tag"], d["outcomes"], d.get("commits", [])
     t.respecting = d.get("respecting", True)
+    t.meta = d.get("meta", {})
     return t
 
 
@@ -570,7 +878,7 @@ def run_for(ctx, prop: str, monitors=None, producer: str = "random") -> None:
     pre = corpus(prop)
     if pre:
         consume(ctx, prop, pre, mons)
-    total = ctx.n(160, 1600)
+    total = ctx.n(160, 1600) if prop not in ("C01", "C10") else ctx.n(48, 160)
     nproc = min(16, max(1, os.cpu_count() or 1))
     per = max(1, total // nproc)
     jobs = [(prop, f"{ctx.seed}:{i}", per, ctx.tier) for i in range(nproc)]
@@ -609,7 +917,7 @@ def consume(ctx, prop: str, traces: list[Trace], mons) -> None:
             if not t.respecting and m.__name__ in OUTCOME_MONITORS:
                 continue
             for sig, what in m(t):
-                full_sig = f"{prop}:{sig}"
+                full_sig = f"{prop}:{'exotic:' if is_exotic(t.spec) else ''}{sig}"
                 if any(h["signature"] == full_sig for h in ctx.monitor_hits):
                     ctx.violation(what, full_sig, None)
                     continue
